@@ -757,7 +757,8 @@ func addScripts(rng *rand.Rand, c *Cfg, slots []string) []Node {
 		}
 		p := "scripts/" + strings.ReplaceAll(s, ".", "_") + ".sh"
 		mt := 1440000000 + i*1000
-		nodes = append(nodes, Node{P: p, Kind: "file", Mode: 0o755, Mt: mt, Size: len(body), data: body, Cid: cidOf(body)})
+		// the mode of a script file in the build tree is not part of the package: slots have the mode their package manager wants
+		nodes = append(nodes, Node{P: p, Kind: "file", Mode: []int{0o755, 0o644, 0o600, 0o664, 0o700, 0o755}[rng.Intn(6)], Mt: mt, Size: len(body), data: body, Cid: cidOf(body)})
 		c.Scripts[s] = p
 		c.ScriptCid[s] = cidOf(body)
 		c.ScriptMt[s] = mt
@@ -873,6 +874,40 @@ func genPkgCase(rng *rand.Rand, id int, profile, scratch string, tier string) *P
 	case "scripts":
 		c.Entries = payloadEntries(rng, nodes, c.NoGlob, rng.Intn(2))
 		nodes = append(nodes, addScripts(rng, c, subset(rng, scriptSlots))...)
+	case "overrides":
+		// a generated configuration with override blocks for a random subset of the formats
+		c.Entries = payloadEntries(rng, nodes, c.NoGlob, 1+rng.Intn(4))
+		nodes = append(nodes, addScripts(rng, c, subset(rng, scriptSlots))...)
+		hasDir := false
+		for _, nd := range nodes {
+			hasDir = hasDir || nd.P == "scripts"
+		}
+		if !hasDir {
+			nodes = append(nodes, Node{P: "scripts", Kind: "dir", Mode: 0o755, Mt: 1450000000})
+		}
+		c.Ov = map[string]*OvCfg{}
+		for _, f := range allFormats {
+			if rng.Intn(3) == 0 {
+				continue
+			}
+			o := &OvCfg{}
+			c.Ov[f] = o
+			if rng.Intn(2) == 0 {
+				o.Depends = relList(rng)
+			}
+			if rng.Intn(3) == 0 {
+				o.Recommends, o.Provides = relList(rng), relList(rng)
+			}
+			if rng.Intn(3) == 0 {
+				o.Suggests, o.Conflicts, o.Replaces = relList(rng), relList(rng), relList(rng)
+			}
+			if rng.Intn(2) == 0 {
+				o.Umask = pick(rng, []int{0o02, 0o22, 0o27, 0o77})
+			}
+			if rng.Intn(2) == 0 {
+				nodes = append(nodes, ovScripts(c, f, subset(rng, commonSlots))...)
+			}
+		}
 	}
 	pc.Nodes = nodes
 	return pc
@@ -881,7 +916,7 @@ func genPkgCase(rng *rand.Rand, id int, profile, scratch string, tier string) *P
 func famPkg(tr *Trace, scratch string, seed int64, tier string, workers int, profile string) M {
 	os.Unsetenv("SOURCE_DATE_EPOCH")
 	rng := rand.New(rand.NewSource(seed*7919 + int64(len(profile))))
-	n := map[string]int{"payload": 60, "meta": 60, "scripts": 40, "stamps": 50}[profile]
+	n := map[string]int{"payload": 60, "meta": 60, "scripts": 40, "stamps": 50, "overrides": 40}[profile]
 	if tier == "thorough" {
 		n *= 15
 	}
